@@ -37,6 +37,10 @@ for name in names:
         incs = [None] + [[f'roadm {x}'] for x in sites if x not in (src, dst)] + \
             [[f'roadm {x}', f'roadm {y}'] for x, y in itertools.permutations([s for s in sites if s not in (src, dst)], 2)][:4] + \
             [[e] for e in line_els] + [['roadm ' + [s for s in sites if s not in (src, dst)][0], line_els[0]]]
+        # pairs of line elements around the source / destination ROADM: lines arriving at and leaving the end sites
+        near = [n.uid for n in net.nodes() if isinstance(n, Edfa) and any(isinstance(x, Roadm) and x.uid in (f'roadm {src}', f'roadm {dst}')
+                                                                           for x in list(net.predecessors(n)) + list(net.successors(n)))]
+        incs += [[x, y] for x, y in itertools.permutations(near, 2)][:(12 if a.tier == 'quick' else 60)]
         others = [s_ for s_ in sites if s_ not in (src, dst)]
         # unknown node names given as LOOSE hops (dropped by the clean-up) in front of a real STRICT / LOOSE hop
         mixed = [(['roadm X1', 'roadm X2', f'roadm {others[0]}'], [False, False, True]),
@@ -95,5 +99,5 @@ for name in names:
                     wit.append({'key': f'{name}:{src}->{dst}:{inc}:{flags}', 'problems': prob})
 finish('routes are real, loop-free, constraint-respecting shortest paths', 'bounded',
        'gnpy.topology.request.correct_json_route_list + compute_path_dsjctn (compute_constrained_path) + find_reversed_path',
-       f'topologies {names}, every ordered site pair, include lists of <= 2 ROADMs / line elements, STRICT and LOOSE',
+       f'topologies {names}, every ordered site pair, include lists of <= 2 ROADMs / line elements (pairs of amplifiers next to the end ROADMs included), STRICT and LOOSE',
        cases, wit, nontrivial=nontriv, t0=t0)
